@@ -101,6 +101,7 @@ enum Cmd {
     Add(String),
     Del(String),
     DelAll,
+    AddAll,
     Quit,
 }
 
@@ -139,6 +140,7 @@ fn controller(cap: usize, input: String, cmds: Receiver<Cmd>, replies: Sender<Re
                 ctx.delete_all_breakpoints();
                 "ok".into()
             }
+            Cmd::AddAll => format!("{:?}", ctx.add_all_rules_breakpoints().map_err(|e| format!("{e:?}"))),
             Cmd::Quit => break,
         };
         if replies.send(Reply::Done(r)).is_err() {
@@ -219,9 +221,9 @@ fn replay(beh: &Value, input: &str, cap: usize, ents: &[(String, usize)], fin: &
                     ctx_tx.send(c).unwrap();
                     cmd_open = true;
                 }
-                "add" | "del" | "delall" => {
+                "add" | "del" | "delall" | "addall" => {
                     let r = st["data"].as_str().unwrap_or("").to_string();
-                    ctx_tx.send(match act { "add" => Cmd::Add(r), "del" => Cmd::Del(r), _ => Cmd::DelAll }).unwrap();
+                    ctx_tx.send(match act { "add" => Cmd::Add(r), "del" => Cmd::Del(r), "addall" => Cmd::AddAll, _ => Cmd::DelAll }).unwrap();
                     if drain(&rep_rx, &mut receivers, t5).is_none() {
                         problem = Some(fail("breakpoint command did not return".into()));
                         break 'steps;
@@ -392,7 +394,8 @@ fn main() {
         Some("entries") => {
             let (e, fin) = entries(&input);
             println!("{}", json!({"entries": e.iter().map(|x| x.0.clone()).collect::<Vec<_>>(),
-                                  "positions": e.iter().map(|x| x.1).collect::<Vec<_>>(), "final": fin, "grammar": grammar(), "input": input}));
+                                  "positions": e.iter().map(|x| x.1).collect::<Vec<_>>(), "final": fin, "grammar": grammar(), "input": input,
+                                  "rules": pest_meta::parse_and_optimize(grammar()).map(|(_, r)| r.iter().map(|x| x.name.clone()).collect::<Vec<_>>()).unwrap_or_default()}));
         }
         Some("replay-one") => {
             // one behaviour per process: parser threads of abandoned runs stay parked for ever and must not
